@@ -1,7 +1,8 @@
 // C01 (part 1): mat-vec products of the scalar sparse formats
 //   SparseMatrixCSR (DenseVector and DenseVectorBlocked operands = csrsb kernel), SparseMatrixBWrappedCSR,
 //   SparseMatrixCSCR
-// against a dense long-double oracle, for ALL sparsity patterns of all small shapes.
+// against a dense long-double oracle, for ALL sparsity patterns of all small shapes; each pattern with four value alphabets on a
+// fresh object and (exact alphabet) in every scenario: other calls first, sub-range views, on clones / moved / index-converted objects.
 #include <c01_common.hpp>
 #include <kernel/lafem/sparse_matrix_cscr.hpp>
 #include <kernel/lafem/sparse_matrix_bwrappedcsr.hpp>
@@ -29,43 +30,62 @@ namespace
   void enum_csr(verif::Ctx& c)
   {
     typedef SparseMatrixCSR<DT, IT> M; typedef DenseVector<DT, IT> V;
+    typedef SparseMatrixCSR<DT, typename OtherIndex<IT>::type> MO;
     const auto ops = apply_cases(true);
     for(const Shape& sh : shapes(c.thorough, true))
     {
       const int bitsn = sh.m * sh.n;
-      // 4x4 only with the exact alphabet and double/u64 + float/u32 (see bounds)
+      // 4x4 only with double/u64 + float/u32 (see bounds); more than 9 pattern bits: reduced variant list
       const bool big = (bitsn >= 16);
       if(big && !(std::is_same<DT, double>::value == (sizeof(IT) == 8))) continue;
+      const auto vars = variants(bitsn <= 9);
       for(uint64_t bits = 0; bits < (uint64_t(1) << bitsn); ++bits)
       {
         const int nreps = (bits == 0 && sh.m > 0 && sh.n > 0) ? 2 : 1;
         for(int rep = 0; rep < nreps; ++rep)
-          for(int alphabet = 0; alphabet < (big ? 1 : 2); ++alphabet)
+          for(const Variant& var : vars)
+          {
+            if(big && var.alphabet != 0) continue;
             for(const ApplyCase& op0 : ops)
             {
               if(!c.want()) continue;
-              ApplyCase op = op0; op.alphabet = alphabet;
-              const DenseRef D = dense_from_bits(sh.m, sh.n, bits, alphabet);
+              set_extreme_exp<DT>();
+              ApplyCase op = op0; op.alphabet = var.alphabet; op.scenario = var.scenario;
+              const DenseRef D = dense_from_bits(sh.m, sh.n, bits, var.alphabet);
               c.desc([&]{ return "csr<" + tp<DT, IT>() + "> " + D.str() + (bits == 0 ? (rep ? " rep=allocated-empty" : " rep=entry-free") : "") + " " + op.str(); });
-              M A = build_csr<DT, IT>(D, rep);
-              // tie the container to the oracle
-              bool same = (A.rows() == Index(sh.m) && A.columns() == Index(sh.n) && A.used_elements() == Index(D.nnz()));
-              if(bits != 0 || rep == 1)
-                for(int i = 0; i < sh.m && same; ++i) for(int j = 0; j < sh.n; ++j) if(!(A(Index(i), Index(j)) == DT(D.at(i, j)))) same = false;
-              c.check(same, "csr.operator() != generator", "container does not represent the generated matrix");
+              M A0 = build_csr<DT, IT>(D, rep);
+              const int dk = derive_kind(var.scenario);
+              M A = dk ? derive_matrix<M, MO>(A0, dk) : A0.clone(CloneMode::Shallow);
+              if(dk) c.count("derived_object_cases");
+              const bool arrays = (A.used_elements() > 0 || (rep == 1 && dk != S_CONVERT));
+              // tie the container to the oracle; in the base scenario only AFTER the operation (the apply is the first access)
+              auto tie = [&]{
+                bool same = (A.rows() == Index(sh.m) && A.columns() == Index(sh.n) && A.used_elements() == Index(D.nnz()));
+                if(arrays && A._indices.size() > 1)
+                  for(int i = 0; i < sh.m && same; ++i) for(int j = 0; j < sh.n; ++j) if(!(A(Index(i), Index(j)) == DT(D.at(i, j)))) same = false;
+                c.check(same, "csr.operator() != generator", "container does not represent the generated matrix"); };
+              if(var.scenario != S_BASE) tie();
               V r(Index(op.transposed ? sh.n : sh.m)), y(Index(op.transposed ? sh.n : sh.m)), x(Index(op.transposed ? sh.m : sh.n));
               const std::string kind = std::string("csr") + (bits == 0 ? (rep ? "[allocated-empty]" : "[entry-free]") : "");
+              if(var.scenario == S_HIST || var.scenario == S_COMBO)
+              {
+                // the counterpart operation on the same object first
+                V t1{Index(op.transposed ? sh.m : sh.n), DT(3)}, t2{Index(op.transposed ? sh.n : sh.m), DT(5)};
+                if(op.transposed) A.apply(t1, t2); else A.apply_transposed(t1, t2);
+              }
               check_apply(c, kind, D, op, r, y, x,
                 [&](int mode, V& rr, const V& xx, const V& yy, DT al) {
                   if(op.transposed) { if(mode == 0) A.apply_transposed(rr, xx); else A.apply_transposed(rr, xx, yy, al); }
                   else { if(mode == 0) A.apply(rr, xx); else A.apply(rr, xx, yy, al); } },
-                [&]{ return hash_of(A); });
+                [&]{ verif::Hash h; hash_container(A0, h); hash_container(A, h); return h.get(); });
+              tie();
               const bool early = (bits == 0) || (op.mode && fabsl(scalars[op.alpha].v) < 1e-10L);
-              if(!early) c.nontrivial(verif::Hash().str("csr").str(tp<DT, IT>()).pod(sh).pod(bits).pod(op.transposed).pod(op.mode).pod(op.alpha).pod(alphabet).get());
+              if(!early) c.nontrivial(verif::Hash().str("csr").str(tp<DT, IT>()).pod(sh).pod(bits).pod(op.transposed).pod(op.mode).pod(op.alpha).pod(var).get());
               c.excluded("same case with r aliasing x (XASSERT precondition)");
               c.outcome(std::string("csr/") + op.name() + (early ? " early-out" : ""));
               c.count("applies");
             }
+          }
       }
     }
   }
@@ -76,16 +96,19 @@ namespace
   {
     typedef SparseMatrixCSR<DT, IT> M; typedef DenseVectorBlocked<DT, IT, BS> V;
     const auto ops = apply_cases(false);
+    // blocked vectors have no sub-range views and the matrix is a plain CSR (derived objects: see enum_csr): alphabets + history + weak clone
+    const std::vector<Variant> vars = {{0, S_BASE}, {1, S_BASE}, {2, S_BASE}, {3, S_BASE}, {0, S_HIST}, {0, S_CLONE_WEAK}};
     for(const Shape& sh : shapes(false, !wrapped))
     {
       const int bitsn = sh.m * sh.n;
       for(uint64_t bits = 0; bits < (uint64_t(1) << bitsn); ++bits)
-        for(int alphabet = 0; alphabet < 2; ++alphabet)
+        for(const Variant& var : vars)
           for(const ApplyCase& op0 : ops)
           {
             if(!c.want()) continue;
-            ApplyCase op = op0; op.alphabet = alphabet;
-            const DenseRef D = dense_from_bits(sh.m, sh.n, bits, alphabet);
+            set_extreme_exp<DT>();
+            ApplyCase op = op0; op.alphabet = var.alphabet; op.scenario = var.scenario;
+            const DenseRef D = dense_from_bits(sh.m, sh.n, bits, var.alphabet);
             // the operator the blocked apply represents: D (x) I_BS
             DenseRef E(sh.m * BS, sh.n * BS);
             for(int i = 0; i < sh.m; ++i) for(int j = 0; j < sh.n; ++j) if(D.has(i, j)) for(int b = 0; b < BS; ++b) E.set(i * BS + b, j * BS + b, D.at(i, j));
@@ -93,22 +116,30 @@ namespace
             c.desc([&]{ return kind + "<" + tp<DT, IT>() + "> " + D.str() + " blocked vectors " + op.str(); });
             if constexpr(wrapped)
             {
-              SparseMatrixBWrappedCSR<DT, IT, BS> A(build_csr<DT, IT>(D, 0));
+              SparseMatrixBWrappedCSR<DT, IT, BS> A0(build_csr<DT, IT>(D, 0));
+              SparseMatrixBWrappedCSR<DT, IT, BS> A = (var.scenario == S_CLONE_WEAK) ? A0.clone(CloneMode::Weak) : A0.clone(CloneMode::Shallow);
               V r = A.create_vector_l(), y = A.create_vector_l(), x = A.create_vector_r();
               check_apply(c, kind, E, op, r, y, x,
                 [&](int mode, V& rr, const V& xx, const V& yy, DT al) { if(mode == 0) A.apply(rr, xx); else A.apply(rr, xx, yy, al); },
-                [&]{ return hash_of(A); });
+                [&]{ verif::Hash h; hash_container(A0, h); hash_container(A, h); return h.get(); });
             }
             else
             {
-              M A = build_csr<DT, IT>(D, 0);
+              M A0 = build_csr<DT, IT>(D, 0);
+              M A = (var.scenario == S_CLONE_WEAK) ? A0.clone(CloneMode::Weak) : A0.clone(CloneMode::Shallow);
               V r{Index(sh.m)}, y{Index(sh.m)}, x{Index(sh.n)};
+              if(var.scenario == S_HIST)
+              {
+                // scalar-vector calls on the same object first
+                DenseVector<DT, IT> t1{Index(sh.m), DT(3)}, t2{Index(sh.n), DT(5)};
+                A.apply(t1, t2); A.apply_transposed(t2, t1);
+              }
               check_apply(c, kind, E, op, r, y, x,
                 [&](int mode, V& rr, const V& xx, const V& yy, DT al) { if(mode == 0) A.apply(rr, xx); else A.apply(rr, xx, yy, al); },
-                [&]{ return hash_of(A); });
+                [&]{ verif::Hash h; hash_container(A0, h); hash_container(A, h); return h.get(); });
             }
             const bool early = (bits == 0) || (op.mode && fabsl(scalars[op.alpha].v) < 1e-10L);
-            if(!early) c.nontrivial(verif::Hash().str(kind).str(tp<DT, IT>()).pod(sh).pod(bits).pod(op.mode).pod(op.alpha).pod(alphabet).get());
+            if(!early) c.nontrivial(verif::Hash().str(kind).str(tp<DT, IT>()).pod(sh).pod(bits).pod(op.mode).pod(op.alpha).pod(var).get());
             c.outcome(std::string(wrapped ? "bwrappedcsr/" : "csrsb/") + op.name() + (early ? " early-out" : ""));
             c.count("applies");
           }
@@ -120,11 +151,13 @@ namespace
   void enum_cscr(verif::Ctx& c)
   {
     typedef SparseMatrixCSCR<DT, IT> M; typedef DenseVector<DT, IT> V;
+    typedef SparseMatrixCSCR<DT, typename OtherIndex<IT>::type> MO;
     const auto ops = apply_cases(true);
     for(const Shape& sh : shapes(c.thorough, true))
     {
       const int bitsn = sh.m * sh.n;
       if(bitsn >= 16) continue;
+      const auto vars = variants(bitsn <= 9);
       for(uint64_t bits = 0; bits < (uint64_t(1) << bitsn); ++bits)
       {
         // rows with entries must be "used"; every superset of them is a legal used-row set
@@ -133,15 +166,16 @@ namespace
         {
           if((used & need) != need) continue;
           if(bits == 0 && used != 0) continue; // the array constructor needs at least one entry; entry-free = CSCR(m,n)
-          for(int alphabet = 0; alphabet < 2; ++alphabet)
+          for(const Variant& var : vars)
             for(const ApplyCase& op0 : ops)
             {
               if(!c.want()) continue;
-              ApplyCase op = op0; op.alphabet = alphabet;
-              const DenseRef D = dense_from_bits(sh.m, sh.n, bits, alphabet);
+              set_extreme_exp<DT>();
+              ApplyCase op = op0; op.alphabet = var.alphabet; op.scenario = var.scenario;
+              const DenseRef D = dense_from_bits(sh.m, sh.n, bits, var.alphabet);
               c.desc([&]{ return "cscr<" + tp<DT, IT>() + "> " + D.str() + " used_rows_mask=" + std::to_string(used) + " " + op.str(); });
-              M A;
-              if(bits == 0) A = M(Index(sh.m), Index(sh.n));
+              M A0;
+              if(bits == 0) A0 = M(Index(sh.m), Index(sh.n));
               else
               {
                 const Index nnz = Index(D.nnz()); Index nur = 0; for(int i = 0; i < sh.m; ++i) nur += (used >> i) & 1u;
@@ -153,20 +187,31 @@ namespace
                   for(int j = 0; j < sh.n; ++j) if(D.has(i, j)) { val.elements()[k] = DT(D.at(i, j)); ci.elements()[k] = IT(j); ++k; }
                   rn.elements()[u] = IT(i); rp.elements()[++u] = IT(k);
                 }
-                A = M(Index(sh.m), Index(sh.n), ci, val, rp, rn);
+                A0 = M(Index(sh.m), Index(sh.n), ci, val, rp, rn);
               }
-              bool same = (A.rows() == Index(sh.m) && A.columns() == Index(sh.n) && A.used_elements() == Index(D.nnz()));
-              if(bits != 0) for(int i = 0; i < sh.m && same; ++i) for(int j = 0; j < sh.n; ++j) if(!(A(Index(i), Index(j)) == DT(D.at(i, j)))) same = false;
-              c.check(same, "cscr.operator() != generator", "container does not represent the generated matrix");
+              const int dk = derive_kind(var.scenario);
+              M A = dk ? derive_matrix<M, MO>(A0, dk) : A0.clone(CloneMode::Shallow);
+              if(dk) c.count("derived_object_cases");
+              auto tie = [&]{
+                bool same = (A.rows() == Index(sh.m) && A.columns() == Index(sh.n) && A.used_elements() == Index(D.nnz()));
+                if(bits != 0) for(int i = 0; i < sh.m && same; ++i) for(int j = 0; j < sh.n; ++j) if(!(A(Index(i), Index(j)) == DT(D.at(i, j)))) same = false;
+                c.check(same, "cscr.operator() != generator", "container does not represent the generated matrix"); };
+              if(var.scenario != S_BASE) tie();
               V r(Index(op.transposed ? sh.n : sh.m)), y(Index(op.transposed ? sh.n : sh.m)), x(Index(op.transposed ? sh.m : sh.n));
               const std::string kind = std::string("cscr") + (bits == 0 ? "[entry-free]" : (used != need ? "[empty used rows]" : ""));
+              if(var.scenario == S_HIST || var.scenario == S_COMBO)
+              {
+                V t1{Index(op.transposed ? sh.m : sh.n), DT(3)}, t2{Index(op.transposed ? sh.n : sh.m), DT(5)};
+                if(op.transposed) A.apply(t1, t2); else A.apply_transposed(t1, t2);
+              }
               check_apply(c, kind, D, op, r, y, x,
                 [&](int mode, V& rr, const V& xx, const V& yy, DT al) {
                   if(op.transposed) { if(mode == 0) A.apply_transposed(rr, xx); else A.apply_transposed(rr, xx, yy, al); }
                   else { if(mode == 0) A.apply(rr, xx); else A.apply(rr, xx, yy, al); } },
-                [&]{ return hash_of(A); });
+                [&]{ verif::Hash h; hash_container(A0, h); hash_container(A, h); return h.get(); });
+              tie();
               const bool early = (bits == 0) || (op.mode && fabsl(scalars[op.alpha].v) < 1e-10L);
-              if(!early) c.nontrivial(verif::Hash().str("cscr").str(tp<DT, IT>()).pod(sh).pod(bits).pod(used).pod(op.transposed).pod(op.mode).pod(op.alpha).pod(alphabet).get());
+              if(!early) c.nontrivial(verif::Hash().str("cscr").str(tp<DT, IT>()).pod(sh).pod(bits).pod(used).pod(op.transposed).pod(op.mode).pod(op.alpha).pod(var).get());
               c.outcome(std::string("cscr/") + op.name() + (early ? " early-out" : ""));
               c.count("applies");
             }
@@ -179,18 +224,20 @@ namespace
 int main(int argc, char** argv)
 {
   FEAT::Runtime::ScopeGuard guard(argc, argv);
-  verif::Spec spec; spec.property = "C01"; spec.harness = "c01_apply_csr";
+  verif::Spec spec; spec.property = "C01"; spec.harness = "c01_apply_csr"; spec.case_timeout_s = 120;
   spec.rule = "case = (container kind, data/index type pair, shape, one of ALL 2^(m*n) sparsity patterns, representation of the empty "
-    "pattern / CSCR used-row superset, operation {apply, apply_transposed} x {r:=Ax, r:=y+aAx with r!=y, with r==y}, alpha, value alphabet); "
-    "non-trivial = pattern has entries and |alpha|>=eps (no early-out); hash over all of these";
-  spec.bounds_quick = "CSR, CSCR: shapes {0..3}x{0..3} (0 only entry-free), all patterns (682 + empties), type pairs (double,u64),(float,u32),(double,u32); "
-    "CSR with DenseVectorBlocked<2>,<3> and BWrappedCSR<2>: shapes {1..3}^2; alpha in {0,1,-1,1/2,2,0.3,1e-20}; exact + rounding alphabet";
-  spec.bounds_thorough = "quick + shapes 1x4,4x1,2x4,4x2,3x4,4x3 (all patterns, CSR and CSCR) + CSR 4x4 (65536 patterns, exact alphabet, (double,u64),(float,u32))";
+    "pattern / CSCR used-row superset, variant = value alphabet {exact, rounding, all-negative, extreme-magnitude} on a fresh object or (exact alphabet) scenario "
+    "{other calls first, sub-range views, deep/shallow/weak clone, moved, index-type round trip, combination}, operation {apply, apply_transposed} x {r:=Ax, r:=y+aAx with r!=y, with r==y}, alpha); "
+    "every operation is invoked a second time on the filled objects; non-trivial = pattern has entries and |alpha|>=eps (no early-out); hash over all of these";
+  spec.bounds_quick = "CSR, CSCR: shapes {0..3}x{0..3} (0 only entry-free), all patterns (682 + empties), 12 variants, type pairs (double,u64),(float,u32),(double,u32); "
+    "CSR with DenseVectorBlocked<2>,<3> and BWrappedCSR<2>: shapes {1..3}^2, 6 variants; alpha in {0,1,-1,1/2,2,0.3,1e-20,-1e-20,1e-300}";
+  spec.bounds_thorough = "quick + shapes 1x4,4x1,2x4,4x2,3x4,4x3 (all patterns, CSR and CSCR, 5 variants: 4 alphabets + combination scenario) + CSR 4x4 (65536 patterns, exact alphabet, base + combination, (double,u64),(float,u32))";
   spec.assumptions = {
-    "oracle: dense long double product written in the harness; operator()(i,j) of every generated container is compared with the generator",
-    "exact alphabet: position coded dyadic values, result compared with ==; rounding alphabet / alpha in {0.3,1e-20}: |err| <= 8(len+2) eps (|A||x| max(1,|alpha|) + |y|)",
-    "result vector r is pre-filled with NaN (r!=y cases), so a kernel reading r is detected",
-    "excluded (API precondition): r aliasing x; vectors of wrong length; zero dimensions other than the entry-free constructor"};
+    "oracle: dense long double product written in the harness; operator()(i,j) of every generated container is compared with the generator (after the operation in the base scenario: the apply is the first access)",
+    "exact / all-negative / extreme alphabets: position coded dyadic values (extreme: matrix * 2^-1030 (denormal), x * 2^+1030; float 2^-+130), result compared with ==; rounding alphabet / non-dyadic alpha: |err| <= 8(len+2) eps (|A||x| max(1,|alpha|) + |y|)",
+    "result vector r is pre-filled with NaN (r!=y cases), so a kernel reading r is detected; sub-range views are surrounded by guard entries that must stay untouched",
+    "derived objects: the source object and the derived object are hashed before/after (source unchanged)",
+    "excluded (API precondition): r aliasing x; vectors of wrong length; zero dimensions other than the entry-free constructor; unsorted column indices / row numbers (the containers require sorted layouts)"};
   return verif::run(spec, argc, argv, [&](verif::Ctx& c) {
     enum_csr<double, std::uint64_t>(c);
     enum_csr<float, std::uint32_t>(c);
